@@ -622,6 +622,40 @@ def oracle(case, only=None, items_out=None):
     return [f for f in fails if only is None or f[0] == only or f[0] == "raises"]
 
 
+# --------------------------------------------------------------------------- malformed inputs
+
+MALFORMED = {"mean": ["notArray", "emptyList"], "mode": ["notArray"], "cat": ["notArray", "badMethod"],
+             "normal": ["emptyList", "missingLoc", "missingScale", "keysDiffer"]}
+EXC_OF = {"notArray": "TypeError", "emptyInput": "ValueError", "missingLoc": "ValueError", "missingScale": "ValueError",
+          "keysDiffer": "ValueError", "badMethod": "ValueError"}
+
+
+def run_malformed(agg, kind):
+    """inputs that are not lists of arrays: the explicit validation must refuse them -> exception type name | None"""
+    import deephyper.ensemble.aggregator as A
+
+    good = np.array([[0.25, 0.75]])
+    try:
+        if kind == "badMethod":
+            A.MixedCategoricalAggregator(uncertainty_method="variance")
+            return None
+        inst = getattr(A, CLS[agg])()
+        if kind == "notArray":
+            y = [good, [[0.5, 0.5]]]
+        elif kind == "emptyList":
+            y = []
+        elif kind == "missingLoc":
+            y = [{"scale": good}, {"loc": good, "scale": good}]
+        elif kind == "missingScale":
+            y = [{"loc": good}, {"loc": good, "scale": good}]
+        else:
+            y = [{"loc": good, "scale": good}, {"loc": good, "scale": good, "extra": good}]
+        inst.aggregate(y)
+        return None
+    except Exception as e:  # noqa: BLE001
+        return type(e).__name__
+
+
 # --------------------------------------------------------------------------- shrinking, fingerprints
 
 
@@ -794,6 +828,17 @@ def run(ck):
         "normal members: scale > 0 in the generator (at zero total variance the code's E[x^2]-E[x]^2 can round below 0)",
         "np.argmax / np.max / np.ma.average are NumPy's; their results are compared, their code is not modelled",
     ]
+    # malformed stream: the validation branches of aggregate() / the constructor (model: `validate`)
+    mal = [(agg, kind) for agg, kinds in MALFORMED.items() for kind in kinds]
+    with ck.driver() as d:
+        reps = d.ask_all([{"op": "validate", "malformed": kind} for _, kind in mal])
+    for (agg, kind), rep in zip(mal, reps):
+        got = run_malformed(agg, kind)
+        case = {"agg": agg, "malformed": kind}
+        ck.case(case, nontrivial=False)
+        ck.count(f"malformed:{agg}:{kind}:{got}")
+        if got != EXC_OF[rep["err"]]:
+            ck.mismatch(case, f"model: refused with {rep['err']} ({EXC_OF[rep['err']]}), impl: {got or 'accepted'}")
     cases = _corpus()
     ck.count("corpus", len(cases))
     n = ck.pick(4000, 40000)
